@@ -294,6 +294,7 @@ type Obligation struct {
 	Name     string // stable name
 	Kind     string
 	Goal     string // formula that must be valid under the assumptions
+	AltGoal  string // equivalent formulation (skolemised) tried when Goal gets no answer
 	NAssume  int    // number of assumptions in scope
 	ExpectSat bool  // vacuity probe: goal "false" must be refutable, i.e. assumptions satisfiable
 	Pos      string
@@ -575,6 +576,17 @@ func dischargeAll(q *Query, outDir string, timeoutS int, confirm bool, workers i
 				to = 5 // obligations listed as known findings / unclaimed are expected not to discharge
 			}
 			res, _ := solveRace(file, to, confirm && !o.ExpectSat)
+			if res.status != "unsat" && res.status != "sat" && o.AltGoal != "" && !o.ExpectSat {
+				o2 := *o
+				o2.Goal = o.AltGoal
+				file2 := strings.TrimSuffix(file, ".smt2") + ".alt.smt2"
+				os.WriteFile(file2, []byte(q.render(&o2, true, nil)), 0o644)
+				if r2, _ := solveRace(file2, to, false); r2.status == "unsat" || r2.status == "sat" {
+					res = r2
+					res.solver += "(skolemised)"
+					o.File = file2
+				}
+			}
 			o.Status, o.Solver, o.Time = res.status, res.solver, res.secs
 			if res.status == "sat" || res.status == "unknown" || res.status == "timeout" || res.status == "error" || res.status == "disagree" {
 				o.Model = res.out
